@@ -197,7 +197,24 @@ def d3(cx: Cx, ob: Ob) -> None:
             got, sense = set(), True
             for x in subterms(a):
                 if op(x) == "cmp" and x[1] == "in":
-                    got |= {f for r, f in prov.fields(x[2]) if r == tgt}
+                    here = {f for r, f in prov.fields(x[2]) if r == tgt}
+                    cont = x[3]
+                    if op(cont) == "new" and len(cont) > 4:
+                        cont = cont[4]
+                    if here == {"prefix"} and op(cont) == "comp" and len(cont[3]) == 1:
+                        # the canonical prefix is looked up among the OWNERS of the requested names:
+                        # {self.synonym_to_prefix[p] for p in <requested names the converter knows>}
+                        q, src, _ = cont[3][0]
+                        elt = cont[2]
+                        owner = (op(elt) == "item" and elt[1] == ("attr", me, "synonym_to_prefix") and elt[2] == q) or (op(elt) == "call" and callee_name(elt) in ("standardize_prefix", "get", "__getitem__") and elt[2][:1] == (q,))
+                        if owner:
+                            gp = [y for y in subterms(src) if op(y) == "call" and callee_name(y) == "get_prefixes"]
+                            stp = any(y == ("attr", me, "synonym_to_prefix") for y in subterms(src)) or any(y == ("attr", me, "synonym_to_prefix") for c_ in cont[3][0][2] for y in subterms(c_))
+                            if stp or any(is_const(dict(y[3]).get("include_synonyms"), True) or (y[2] and is_const(y[2][0], True)) for y in gp):
+                                here = set(CURIE_SIDE)  # every name (canonical or synonym) leads to its owner
+                            elif not gp:
+                                here = set()
+                    got |= here
                 inter_ops = None
                 if op(x) == "call" and op(x[1]) == "attr" and x[1][2] in ("intersection", "isdisjoint") and len(x[2]) == 1:
                     inter_ops = [x[1][1], x[2][0]]
